@@ -136,6 +136,8 @@ func propC16(w *World, r *Report, tier string) {
 		panic(anchorError("nasConvert.(*ProtocolConfigurationOptions).Marshal / UnMarshal"))
 	}
 	r.Fn(FuncName(fm))
+	// ---- UnMarshal at concrete unit layouts (values, order and non-aliasing decided by evaluation)
+	shapesOK := checkPcoShapes(w, r, fu)
 	{
 		// the first write to the output buffer is one octet with the constant value 0x80 (E3)
 		fn := w.SSAFunc(fm)
@@ -175,7 +177,12 @@ func propC16(w *World, r *Report, tier string) {
 		a, b := fieldSeq(w.SSAFunc(fm), true), fieldSeq(w.SSAFunc(fu), false)
 		want := "ProtocolOrContainerID,LengthOfContents,Contents"
 		ja, jb := joinStr(a), joinStr(b)
-		if ja != want || jb != want {
+		if ja == want && jb == "" && shapesOK {
+			// UnMarshal is not written as binary.Read calls field by field: the call-shape rule has
+			// nothing to compare on its side; pco.units has decided it by evaluation
+			r.OK("seq.dual")
+			r.Note("seq.dual: UnMarshal does not read with binary.Read field by field; its side is decided by pco.units")
+		} else if ja != want || jb != want {
 			r.Fail("seq.dual", FuncName(fm), "unit items", fm.Pos(), "per-unit items: Marshal writes ["+ja+"], UnMarshal reads ["+jb+"], specified [identifier(16), length(8), contents]", nil)
 		} else {
 			r.OK("seq.dual")
@@ -279,6 +286,12 @@ func propC16(w *World, r *Report, tier string) {
 		if nread == 0 && bad == "" {
 			bad = "Contents is never read from the input"
 		}
+		if reader == nil && shapesOK {
+			// not the reader style this rule reads: that the contents are the input's octets, in a
+			// slice of their own, is decided by pco.units (values and non-aliasing at 8 layouts)
+			bad = ""
+			r.Note("prov.contents: UnMarshal has no bytes.Reader over its input; decided by pco.units")
+		}
 		if bad != "" {
 			r.Fail("prov.contents", FuncName(fu), "Contents", fu.Pos(), "parsed contents do not come only from the input: "+bad, nil)
 		} else {
@@ -309,8 +322,6 @@ func propC16(w *World, r *Report, tier string) {
 			r.OK("pco.fresh-result")
 		}
 	}
-	// ---- UnMarshal at concrete unit layouts
-	checkPcoShapes(w, r, fu)
 	// ---- Marshal serialises every unit of the list
 	checkSerialiserLoops(w, r, "nasConvert", func(fn *ssa.Function) bool { return SSAFuncName(fn) == FuncName(fm) })
 	r.Expect("seq.all-items", 1)
@@ -479,6 +490,39 @@ func readerModels(it *Interp) {
 				}
 				bs = append(bs, b)
 			}
+		case AggV:
+			// a struct / array of integers by value: its fields in declaration order, big endian
+			mi, ok := call.Args[2].(*ssa.MakeInterface)
+			if !ok {
+				return nil, false
+			}
+			var lay func(t types.Type, path string) bool
+			lay = func(t types.Type, path string) bool {
+				if _, _, isInt := typeWidth(t); isInt {
+					c, ok := v.Cells[path].(BV)
+					return ok && split(c)
+				}
+				switch u := t.Underlying().(type) {
+				case *types.Struct:
+					for i := 0; i < u.NumFields(); i++ {
+						if !lay(u.Field(i).Type(), path+"."+u.Field(i).Name()) {
+							return false
+						}
+					}
+					return true
+				case *types.Array:
+					for i := 0; i < int(u.Len()); i++ {
+						if !lay(u.Elem(), fmt.Sprintf("%s[%d]", path, i)) {
+							return false
+						}
+					}
+					return true
+				}
+				return false
+			}
+			if !lay(mi.X.Type(), "") {
+				return nil, false
+			}
 		default:
 			return nil, false
 		}
@@ -646,7 +690,8 @@ func readerModels(it *Interp) {
 // checkPcoShapes: UnMarshal on inputs with concrete identifier and length octets and symbolic
 // contents returns exactly the units laid out in the octets, in order - including zero-length
 // units in every position.
-func checkPcoShapes(w *World, r *Report, fu *types.Func) {
+func checkPcoShapes(w *World, r *Report, fu *types.Func) bool {
+	all := true
 	fn := w.SSAFunc(fu)
 	fname := FuncName(fu)
 	for _, shape := range [][]int{{}, {0}, {3}, {0, 0}, {2, 0}, {0, 2}, {4, 0, 1}, {1, 5, 0}} {
@@ -711,6 +756,10 @@ func checkPcoShapes(w *World, r *Report, fu *types.Func) {
 				good, why = false, fmt.Sprintf("unit %d contents are not %d octets", i, shape[i])
 				break
 			}
+			if shape[i] > 0 && cs.Obj == bo {
+				good, why = false, fmt.Sprintf("unit %d contents alias the input octets instead of being a copy of them", i)
+				break
+			}
 			for k := range bs {
 				if ok, m := sameBV(it, bs[k], it.SrcBV(fmt.Sprintf("data[%d]", offs[i]+3+k), 8)); !ok {
 					good, why = false, fmt.Sprintf("unit %d content octet %d: %s", i, k, m)
@@ -721,8 +770,10 @@ func checkPcoShapes(w *World, r *Report, fu *types.Func) {
 		if good {
 			r.OK("pco.units")
 		} else {
+			all = false
 			r.Fail("pco.units", fname, what, fu.Pos(), "UnMarshal does not return exactly the units laid out in the input ("+what+"): "+why, nil)
 		}
 	}
 	r.Expect("pco.units", 8)
+	return all
 }
